@@ -37,7 +37,7 @@ def body(args):
 
 @dataclass
 class Target:
-    what: str  # fn | pred | predkw | predinit
+    what: str  # fn | pred | predkw | predinit | predexpensive
     call: Any
     arity: int
     with_default: bool
@@ -110,6 +110,22 @@ for _a in (1, 2, 3):
         TARGETS[("pred", _a, _d)] = _mk_predicate(_a, _d)
 TARGETS[("predkw", 2, True)] = Target("predkw", PredKw, 2, True, (0, 1))
 TARGETS[("predinit", 2, False)] = Target("predinit", PredInit, 2, False, (1, 0))
+
+
+@dataclass(eq=False)
+class PredExpensive(Predicate):
+    """uses the class flag that Predicate declares for costly predicates; the contract stays the same"""
+
+    is_expensive = True
+    p0: Any
+    p1: Any
+
+    def __call__(self):
+        LOG.append((self.p0, self.p1))
+        return body((self.p0, self.p1))
+
+
+TARGETS[("predexpensive", 2, False)] = Target("predexpensive", PredExpensive, 2, False, (0, 1))
 
 
 def shapes(t: Target):
@@ -360,7 +376,7 @@ def describe(tier):
     max_arity = 2 if tier == "quick" else 3
     return dict(
         rule="every call shape: callable kind {symbolic_function, dataclass Predicate, Predicate with a keyword-only field between ordinary ones, "
-        "Predicate with a hand-written __init__ in another order} x arity 1..%d x {no default, default on last parameter given/omitted} "
+        "Predicate with a hand-written __init__ in another order, Predicate with the class flag is_expensive set} x arity 1..%d x {no default, default on last parameter given/omitted} "
         "x each argument a variable (x or y), an attribute of a variable (x.b) or a concrete symbolic integer x every positional/keyword split; "
         "each shape is evaluated, its data is updated, and it is evaluated again; plus value-equal-but-distinct hashable candidates; "
         "non-trivial = >= 2 feasible paths and a non-empty result on some path" % max_arity,
